@@ -626,7 +626,7 @@ Lemma cpuset_from_nodeset_locality nl nodeset j :
 Proof. unfold cpuset_from_nodeset. now rewrite fold_union_mem, mem_empty. Qed.
 
 (* ================================================================== *)
-(* hwloc_get_common_ancestor_obj on normal objects                     *)
+(* hwloc_get_common_ancestor_obj, all objects                          *)
 
 (* x is o or an ancestor of o, through parent pointers *)
 Inductive anc (d : dump) : dobj -> dobj -> Prop :=
@@ -634,23 +634,17 @@ Inductive anc (d : dump) : dobj -> dobj -> Prop :=
 | anc_up x o p : deref d (o_parent o) = Some p -> anc d x p -> anc d x o.
 
 (* facts wf_check establishes ("ids-not-sequential", "child-parent", "child-depth",
-   "parent-pointer", "root-level") about the objects of non-negative depth *)
+   "parent-pointer", "root-level"; ids are DFS pre-order numbers, so a parent's id is smaller) *)
 Record parents_ok (d : dump) : Prop := {
   po_id : forall o, In o (t_objs d) -> get d (o_id o) = Some o;
+  po_lt : forall o p, In o (t_objs d) -> deref d (o_parent o) = Some p -> In p (t_objs d) /\ o_id p < o_id o;
+  po_one_root : forall o o', In o (t_objs d) -> In o' (t_objs d) ->
+                  deref d (o_parent o) = None -> deref d (o_parent o') = None -> o_id o = o_id o';
   po_in : forall o p, In o (t_objs d) -> (0 <= o_depth o)%Z -> deref d (o_parent o) = Some p ->
-                      In p (t_objs d) /\ (0 <= o_depth p < o_depth o)%Z;
+                      (0 <= o_depth p < o_depth o)%Z;
   po_par : forall o, In o (t_objs d) -> (0 < o_depth o)%Z -> deref d (o_parent o) <> None;
   po_root : forall o o', In o (t_objs d) -> In o' (t_objs d) -> o_depth o = 0%Z -> o_depth o' = 0%Z -> o_id o = o_id o'
 }.
-
-Lemma anc_depth d : parents_ok d -> forall x o, anc d x o -> In o (t_objs d) -> (0 <= o_depth o)%Z ->
-  In x (t_objs d) /\ (0 <= o_depth x <= o_depth o)%Z /\ (o_depth x = o_depth o -> x = o).
-Proof.
-  intros P x o H. induction H as [o|x o p Hp Ha IH]; intros Hi Hd.
-  - split; [exact Hi|]. split; [lia|reflexivity].
-  - destruct (po_in d P o p Hi Hd Hp) as [Hpi Hpd]. destruct (IH Hpi ltac:(lia)) as (I1 & I2 & _).
-    split; [exact I1|]. split; [lia|]. intros E. lia.
-Qed.
 
 Lemma same_id d : parents_ok d -> forall a b, In a (t_objs d) -> In b (t_objs d) -> o_id a = o_id b -> a = b.
 Proof.
@@ -661,32 +655,163 @@ Qed.
 Lemma anc_inv d x o : anc d x o -> x = o \/ exists p, deref d (o_parent o) = Some p /\ anc d x p.
 Proof. intros H. inversion H; subst; eauto. Qed.
 
-(* termination with fuel = depth a + depth b + 1, and the answer is the deepest common ancestor:
-   an ancestor-or-self of both, of which every common ancestor-or-self is an ancestor-or-self *)
+Lemma anc_trans d x y z : anc d x y -> anc d y z -> anc d x z.
+Proof. intros H1 H2. induction H2 as [o|y o p Hp Ha IH]; [exact H1|]. eapply anc_up; eauto. Qed.
+
+Lemma anc_depth d : parents_ok d -> forall x o, anc d x o -> In o (t_objs d) -> (0 <= o_depth o)%Z ->
+  In x (t_objs d) /\ (0 <= o_depth x <= o_depth o)%Z /\ (o_depth x = o_depth o -> x = o).
+Proof.
+  intros P x o H. induction H as [o|x o p Hp Ha IH]; intros Hi Hd.
+  - split; [exact Hi|]. split; [lia|reflexivity].
+  - destruct (po_lt d P o p Hi Hp) as [Hpi _]. pose proof (po_in d P o p Hi Hd Hp) as Hpd.
+    destruct (IH Hpi ltac:(lia)) as (I1 & I2 & _).
+    split; [exact I1|]. split; [lia|]. intros E. lia.
+Qed.
+
+(* ---- numbers of ancestors ---- *)
+
+Definition hfuel (d : dump) : nat := S (List.length (t_objs d)).
+Definition H (d : dump) (o : dobj) : nat := height d (hfuel d) o.
+
+Lemma id_lt_len d : parents_ok d -> forall o, In o (t_objs d) -> (N.to_nat (o_id o) < List.length (t_objs d))%nat.
+Proof.
+  intros P o Ho. pose proof (po_id d P o Ho) as G. unfold get in G. apply nth_error_Some. congruence.
+Qed.
+
+Lemma height_le_id d : parents_ok d -> forall fuel o, In o (t_objs d) -> (height d fuel o <= N.to_nat (o_id o))%nat.
+Proof.
+  intros P. induction fuel as [|f IH]; intros o Ho; cbn [height]; [lia|].
+  destruct (deref d (o_parent o)) as [p|] eqn:E; [|lia].
+  destruct (po_lt d P o p Ho E) as [Hp Hlt]. specialize (IH p Hp). lia.
+Qed.
+
+Lemma height_indep d : parents_ok d -> forall f1 f2 o, In o (t_objs d) ->
+  (N.to_nat (o_id o) < f1)%nat -> (N.to_nat (o_id o) < f2)%nat -> height d f1 o = height d f2 o.
+Proof.
+  intros P. induction f1 as [|f1 IH]; intros f2 o Ho H1 H2; [lia|]. destruct f2 as [|f2]; [lia|].
+  cbn [height]. destruct (deref d (o_parent o)) as [p|] eqn:E; [|reflexivity].
+  destruct (po_lt d P o p Ho E) as [Hp Hlt]. f_equal. apply IH; [exact Hp|lia|lia].
+Qed.
+
+Lemma H_step d : parents_ok d -> forall o p, In o (t_objs d) -> deref d (o_parent o) = Some p -> H d o = S (H d p).
+Proof.
+  intros P o p Ho E. unfold H, hfuel.
+  change (height d (S (List.length (t_objs d))) o) with
+    (match deref d (o_parent o) with Some p => S (height d (List.length (t_objs d)) p) | None => O end).
+  rewrite E. f_equal.
+  destruct (po_lt d P o p Ho E) as [Hp _]. pose proof (id_lt_len d P p Hp).
+  apply height_indep; auto.
+Qed.
+
+Lemma H_root d o : deref d (o_parent o) = None -> H d o = 0%nat.
+Proof. intros E. unfold H, hfuel. cbn [height]. now rewrite E. Qed.
+
+Lemma H_lt_fuel d : parents_ok d -> forall o, In o (t_objs d) -> (H d o < hfuel d)%nat.
+Proof.
+  intros P o Ho. pose proof (height_le_id d P (hfuel d) o Ho). pose proof (id_lt_len d P o Ho). unfold H, hfuel in *. lia.
+Qed.
+
+Lemma anc_H d : parents_ok d -> forall x o, anc d x o -> In o (t_objs d) ->
+  In x (t_objs d) /\ (H d x <= H d o)%nat /\ (H d x = H d o -> x = o).
+Proof.
+  intros P x o A. induction A as [o|x o p Hp Ha IH]; intros Hi.
+  - split; [exact Hi|]. split; [lia|reflexivity].
+  - destruct (po_lt d P o p Hi Hp) as [Hpi _]. destruct (IH Hpi) as (I1 & I2 & _).
+    rewrite (H_step d P o p Hi Hp). split; [exact I1|]. split; [lia|]. intros E. lia.
+Qed.
+
+Lemma climb_spec d : parents_ok d -> forall k o, In o (t_objs d) -> (k <= H d o)%nat ->
+  exists o', climb d k o = Some o' /\ In o' (t_objs d) /\ anc d o' o /\ H d o' = (H d o - k)%nat /\
+             forall x, anc d x o -> (H d x <= H d o - k)%nat -> anc d x o'.
+Proof.
+  intros P. induction k as [|k IH]; intros o Ho Hk; cbn [climb].
+  - exists o. split; [reflexivity|]. split; [exact Ho|]. split; [constructor|]. split; [lia|auto].
+  - destruct (deref d (o_parent o)) as [p|] eqn:E.
+    2:{ rewrite (H_root d o E) in Hk. lia. }
+    destruct (po_lt d P o p Ho E) as [Hp _]. pose proof (H_step d P o p Ho E) as Hs.
+    destruct (IH p Hp ltac:(lia)) as (o' & C1 & C2 & C3 & C4 & C5).
+    exists o'. split; [exact C1|]. split; [exact C2|]. split; [eapply anc_up; eauto|]. split; [lia|].
+    intros x Xa Xh. apply C5; [|lia]. apply anc_inv in Xa as [-> | [p' [Hp' Xp]]]; [lia|].
+    rewrite E in Hp'. now inversion Hp'; subst.
+Qed.
+
+Lemma climb_both_spec d : parents_ok d -> forall fuel a b, In a (t_objs d) -> In b (t_objs d) ->
+  H d a = H d b -> (H d a < fuel)%nat ->
+  exists r, climb_both d fuel a b = CA_obj (o_id r) /\ anc d r a /\ anc d r b /\
+            forall x, anc d x a -> anc d x b -> anc d x r.
+Proof.
+  intros P. induction fuel as [|f IH]; intros a b Ha Hb Eh Hf; [lia|]. cbn [climb_both].
+  destruct (N.eqb_spec (o_id a) (o_id b)) as [E|NE].
+  - pose proof (same_id d P a b Ha Hb E) as ->. exists b. repeat split; try constructor. auto.
+  - destruct (deref d (o_parent a)) as [pa|] eqn:Epa.
+    + pose proof (H_step d P a pa Ha Epa) as Sa.
+      destruct (deref d (o_parent b)) as [pb|] eqn:Epb.
+      2:{ rewrite (H_root d b Epb) in Eh. lia. }
+      pose proof (H_step d P b pb Hb Epb) as Sb.
+      destruct (po_lt d P a pa Ha Epa) as [Hpa _]. destruct (po_lt d P b pb Hb Epb) as [Hpb _].
+      destruct (IH pa pb Hpa Hpb ltac:(lia) ltac:(lia)) as (r & R1 & R2 & R3 & R4).
+      exists r. split; [exact R1|]. split; [eapply anc_up; eauto|]. split; [eapply anc_up; eauto|].
+      intros x Xa Xb. apply R4.
+      * apply anc_inv in Xa as [-> | [p [Hp Xp]]].
+        -- exfalso. destruct (anc_H d P _ _ Xb Hb) as (_ & _ & I3). apply NE. now rewrite (I3 Eh).
+        -- rewrite Epa in Hp. now inversion Hp; subst.
+      * apply anc_inv in Xb as [-> | [p [Hp Xp]]].
+        -- exfalso. destruct (anc_H d P _ _ Xa Ha) as (_ & _ & I3). apply NE. now rewrite (I3 (eq_sym Eh)).
+        -- rewrite Epb in Hp. now inversion Hp; subst.
+    + exfalso. destruct (deref d (o_parent b)) as [pb|] eqn:Epb.
+      * rewrite (H_root d a Epa), (H_step d P b pb Hb Epb) in Eh. lia.
+      * apply NE. apply (po_one_root d P a b Ha Hb Epa Epb).
+Qed.
+
+Lemma ca_by_height_spec d : parents_ok d -> forall a b, In a (t_objs d) -> In b (t_objs d) ->
+  exists r, ca_by_height d a b = CA_obj (o_id r) /\ anc d r a /\ anc d r b /\
+            forall x, anc d x a -> anc d x b -> anc d x r.
+Proof.
+  intros P a b Ha Hb. unfold ca_by_height. fold (hfuel d). fold (H d a) (H d b).
+  destruct (Nat.le_gt_cases (H d b) (H d a)) as [L|L].
+  - destruct (climb_spec d P (H d a - H d b) a Ha ltac:(lia)) as (a' & C1 & C2 & C3 & C4 & C5).
+    rewrite C1. replace (H d b - H d a)%nat with 0%nat by lia. cbn [climb].
+    destruct (climb_both_spec d P (hfuel d) a' b C2 Hb ltac:(lia) (H_lt_fuel d P a' C2)) as (r & R1 & R2 & R3 & R4).
+    exists r. split; [exact R1|]. split; [exact (anc_trans d r a' a R2 C3)|]. split; [exact R3|].
+    intros x Xa Xb. apply R4; [|exact Xb]. apply C5; [exact Xa|].
+    destruct (anc_H d P _ _ Xb Hb) as (_ & I2 & _). lia.
+  - destruct (climb_spec d P (H d b - H d a) b Hb ltac:(lia)) as (b' & C1 & C2 & C3 & C4 & C5).
+    rewrite C1. replace (H d a - H d b)%nat with 0%nat by lia. cbn [climb].
+    destruct (climb_both_spec d P (hfuel d) a b' Ha C2 ltac:(lia) (H_lt_fuel d P a Ha)) as (r & R1 & R2 & R3 & R4).
+    exists r. split; [exact R1|]. split; [exact R2|]. split; [exact (anc_trans d r b' b R3 C3)|].
+    intros x Xa Xb. apply R4; [exact Xa|]. apply C5; [exact Xb|].
+    destruct (anc_H d P _ _ Xa Ha) as (_ & I2 & _). lia.
+Qed.
+
+(* for ALL objects: termination (fuel depth a + depth b + 1 for normal objects), no NULL
+   dereference, and the answer is the deepest common ancestor: an ancestor-or-self of both,
+   of which every common ancestor-or-self is an ancestor-or-self *)
 Lemma common_ancestor_deepest_l d : parents_ok d -> forall fuel a b,
-  In a (t_objs d) -> In b (t_objs d) -> (0 <= o_depth a)%Z -> (0 <= o_depth b)%Z ->
+  In a (t_objs d) -> In b (t_objs d) ->
   (Z.to_nat (o_depth a) + Z.to_nat (o_depth b) < fuel)%nat ->
   exists r, common_ancestor d fuel a b = CA_obj (o_id r) /\ anc d r a /\ anc d r b /\
             forall x, anc d x a -> anc d x b -> anc d x r.
 Proof.
-  intros P. induction fuel as [|f IH]; intros a b Ha Hb Da Db Hf; [lia|].
+  intros P. induction fuel as [|f IH]; intros a b Ha Hb Hf; [lia|].
   cbn [common_ancestor].
   destruct (N.eqb_spec (o_id a) (o_id b)) as [E|NE].
   - pose proof (same_id d P a b Ha Hb E) as ->. exists b. repeat split; try constructor. auto.
-  - destruct (Z.ltb_spec (o_depth b) (o_depth a)) as [L1|L1].
+  - destruct ((o_depth a <? 0)%Z || (o_depth b <? 0)%Z) eqn:Eneg; [now apply ca_by_height_spec|].
+    apply orb_false_iff in Eneg as [Da Db]. apply Z.ltb_ge in Da, Db.
+    destruct (Z.ltb_spec (o_depth b) (o_depth a)) as [L1|L1].
     + destruct (deref d (o_parent a)) as [pa|] eqn:Epa; [|exfalso; apply (po_par d P a Ha ltac:(lia)); exact Epa].
-      destruct (po_in d P a pa Ha Da Epa) as [Hpi Hpd].
-      destruct (IH pa b Hpi Hb ltac:(lia) Db ltac:(lia)) as (r & R1 & R2 & R3 & R4).
+      destruct (po_lt d P a pa Ha Epa) as [Hpi _]. pose proof (po_in d P a pa Ha Da Epa) as Hpd.
+      destruct (IH pa b Hpi Hb ltac:(lia)) as (r & R1 & R2 & R3 & R4).
       exists r. split; [exact R1|]. split; [eapply anc_up; eauto|]. split; [exact R3|].
-      intros x Xa Xb. apply R4; [|exact Xb]. apply anc_inv in Xa as [->|[p [Hp Xp]]].
+      intros x Xa Xb. apply R4; [|exact Xb]. apply anc_inv in Xa as [-> | [p [Hp Xp]]].
       * exfalso. destruct (anc_depth d P _ _ Xb Hb Db) as (_ & I2 & _). lia.
       * rewrite Epa in Hp. now inversion Hp; subst.
     + destruct (Z.ltb_spec (o_depth a) (o_depth b)) as [L2|L2].
       * destruct (deref d (o_parent b)) as [pb|] eqn:Epb; [|exfalso; apply (po_par d P b Hb ltac:(lia)); exact Epb].
-        destruct (po_in d P b pb Hb Db Epb) as [Hpi Hpd].
-        destruct (IH a pb Ha Hpi Da ltac:(lia) ltac:(lia)) as (r & R1 & R2 & R3 & R4).
+        destruct (po_lt d P b pb Hb Epb) as [Hpi _]. pose proof (po_in d P b pb Hb Db Epb) as Hpd.
+        destruct (IH a pb Ha Hpi ltac:(lia)) as (r & R1 & R2 & R3 & R4).
         exists r. split; [exact R1|]. split; [exact R2|]. split; [eapply anc_up; eauto|].
-        intros x Xa Xb. apply R4; [exact Xa|]. apply anc_inv in Xb as [->|[p [Hp Xp]]].
+        intros x Xa Xb. apply R4; [exact Xa|]. apply anc_inv in Xb as [-> | [p [Hp Xp]]].
         -- exfalso. destruct (anc_depth d P _ _ Xa Ha Da) as (_ & I2 & _). lia.
         -- rewrite Epb in Hp. now inversion Hp; subst.
       * assert (Ed : o_depth a = o_depth b) by lia.
@@ -694,14 +819,15 @@ Proof.
         { destruct (Z.eq_dec (o_depth a) 0) as [Z0|]; [|lia]. exfalso. apply NE. apply (po_root d P a b Ha Hb Z0). lia. }
         destruct (deref d (o_parent a)) as [pa|] eqn:Epa; [|exfalso; apply (po_par d P a Ha Dpos); exact Epa].
         destruct (deref d (o_parent b)) as [pb|] eqn:Epb; [|exfalso; apply (po_par d P b Hb ltac:(lia)); exact Epb].
-        destruct (po_in d P a pa Ha Da Epa) as [Hpia Hpda]. destruct (po_in d P b pb Hb Db Epb) as [Hpib Hpdb].
-        destruct (IH pa pb Hpia Hpib ltac:(lia) ltac:(lia) ltac:(lia)) as (r & R1 & R2 & R3 & R4).
+        destruct (po_lt d P a pa Ha Epa) as [Hpia _]. destruct (po_lt d P b pb Hb Epb) as [Hpib _].
+        pose proof (po_in d P a pa Ha Da Epa) as Hpda. pose proof (po_in d P b pb Hb Db Epb) as Hpdb.
+        destruct (IH pa pb Hpia Hpib ltac:(lia)) as (r & R1 & R2 & R3 & R4).
         exists r. split; [exact R1|]. split; [eapply anc_up; eauto|]. split; [eapply anc_up; eauto|].
         intros x Xa Xb. apply R4.
-        -- apply anc_inv in Xa as [->|[p [Hp Xp]]].
+        -- apply anc_inv in Xa as [-> | [p [Hp Xp]]].
            ++ exfalso. destruct (anc_depth d P _ _ Xb Hb Db) as (_ & _ & I3). apply NE. now rewrite (I3 Ed).
            ++ rewrite Epa in Hp. now inversion Hp; subst.
-        -- apply anc_inv in Xb as [->|[p [Hp Xp]]].
+        -- apply anc_inv in Xb as [-> | [p [Hp Xp]]].
            ++ exfalso. destruct (anc_depth d P _ _ Xa Ha Da) as (_ & _ & I3). apply NE. now rewrite (I3 (eq_sym Ed)).
            ++ rewrite Epb in Hp. now inversion Hp; subst.
 Qed.
